@@ -135,14 +135,6 @@ theorem warn_reports_each_generated (c : Cfg σ) (h : c.mode = .warn) (ht : c.wa
     log.warnings = log.suppressed.map (lookupWarning Gen.ModeSites.warnings) := by
   rw [← ht]; exact warn_reports_each c h src st out log hr
 
-/-- the generated table, spelled out: only these four classes have a specific category, everything else is `LiquidWarning` -/
-theorem generated_categories :
-    lookupWarning Gen.ModeSites.warnings "LiquidSyntaxError" = "LiquidSyntaxWarning" ∧
-    lookupWarning Gen.ModeSites.warnings "LiquidTypeError" = "LiquidTypeWarning" ∧
-    lookupWarning Gen.ModeSites.warnings "FilterArgumentError" = "FilterWarning" ∧
-    lookupWarning Gen.ModeSites.warnings "UnknownFilterError" = "FilterWarning" ∧
-    lookupWarning Gen.ModeSites.warnings "TemplateNotFoundError" = "LiquidWarning" := by decide
-
 /-! ## Sentence 3: a template that parses and renders without error in strict mode renders identically in lax and warn
 mode, and warn mode emits no warnings for it -/
 
@@ -189,11 +181,6 @@ theorem strict_ok_implies_lax_warn_same (c : Cfg σ) (src : List (Tok σ)) (st :
 
 /-- every consultation of the mode in liquid/ has a benign shape (re-exported; decided in the generated file) -/
 theorem all_sites_benign : Gen.ModeSites.kinds.all Gen.ModeSites.Kind.benign = true := Gen.ModeSites.all_sites_benign
-
-/-- the expression parsers consult the mode only through strict-only raise guards — what `PBeh` abstracts;
-    the count is pinned so that a removed guard is noticed as well -/
-theorem raise_guards_pinned : Gen.ModeSites.countKind .raiseGuard = 7 ∧ Gen.ModeSites.countKind .dispatch = 4 ∧
-    Gen.ModeSites.countKind .tagConstant = 4 ∧ Gen.ModeSites.countKind .hash = 1 := by decide
 
 /-- `Environment.error` and `RenderContext.error` have the dispatch shape `Cfg.error` mirrors -/
 theorem error_methods_dispatch :
